@@ -25,6 +25,7 @@ import (
 	"strings"
 	"time"
 
+	gethtypes "github.com/ethereum/go-ethereum/core/types"
 	"github.com/gogo/protobuf/proto"
 
 	"github.com/kardiachain/go-kardia/kai/kaidb/memorydb"
@@ -113,6 +114,34 @@ func proofEq(a, b *merkle.SimpleProof) bool {
 		}
 	}
 	return true
+}
+
+// wirePart sends a part the way the consensus reactor, the WAL and the block store do:
+// ToProto -> Marshal -> Unmarshal -> PartFromProto (which applies SimpleProof.ValidateBasic and
+// Part.ValidateBasic).  class: ok | proof | toobig.
+func wirePart(p *types.Part) (q *types.Part, class string) {
+	pp, err := p.ToProto()
+	if err != nil {
+		return nil, "other:" + err.Error()
+	}
+	bz, err := proto.Marshal(pp)
+	if err != nil {
+		return nil, "other:" + err.Error()
+	}
+	pp2 := new(kproto.Part)
+	if err := proto.Unmarshal(bz, pp2); err != nil {
+		return nil, "other:" + err.Error()
+	}
+	q, err = types.PartFromProto(pp2)
+	switch {
+	case err == nil:
+		return q, "ok"
+	case strings.HasPrefix(err.Error(), "expected LeafHash size"), strings.HasPrefix(err.Error(), "expected Aunts#"):
+		return nil, "proof"
+	case strings.HasPrefix(err.Error(), "Too big"):
+		return nil, "toobig"
+	}
+	return nil, "other:" + err.Error()
 }
 
 func partLine(p *types.Part) string {
@@ -365,6 +394,29 @@ func runSchedule(o *out.Out, r *gen.Rand, data []byte, partSize uint32, full *ty
 	delivered := map[int]bool{} // independent tally: genuine parts offered so far (genuine header only)
 	offer := func(q *types.Part, label string) {
 		step++
+		// over the wire first; what arrives (if anything) is what AddPart gets
+		{
+			var wq *types.Part
+			var wc string
+			if catch(func() { wq, wc = wirePart(q) }) {
+				wc = "PANIC"
+				o.Fail(step, "partfromproto-panic", label)
+			}
+			o.Op("W"+partLine(q)[1:], "w "+wc)
+			idx := int(q.Index)
+			gen := idx < total && bytes.Equal(q.Bytes, gp[idx].Bytes) && proofEq(&q.Proof, &gp[idx].Proof)
+			if gen && partSize <= types.BlockPartSizeBytes {
+				if wc != "ok" {
+					o.Fail(step, "genuine-part-lost-on-wire", fmt.Sprintf("genuine part %d/%d (%d bytes, part size %d) does not survive ToProto/PartFromProto: %s", idx, total, len(q.Bytes), partSize, wc))
+				} else if wq.Index != q.Index || !bytes.Equal(wq.Bytes, q.Bytes) || !proofEq(&wq.Proof, &q.Proof) {
+					o.Fail(step, "roundtrip-part-changed", fmt.Sprintf("part %d", idx))
+				}
+			}
+			o.Count("wire." + wc)
+			if wc == "ok" {
+				q = wq
+			}
+		}
 		beforeCount, beforeBits := ps.Count(), bitsOf(ps)
 		var added bool
 		var err error
@@ -564,8 +616,8 @@ func runPartSetCase(o *out.Out, r *gen.Rand, c int) {
 	var dname string
 	if partSize == types.BlockPartSizeBytes {
 		// the real part size: 0..3 parts around the boundaries
-		k := r.Intn(4)
-		n := int(partSize)*k + []int{0, 1, -1, 12345}[r.Intn(4)]
+		k := []int{1, 2, 1, 2, 0, 3}[r.Intn(6)]
+		n := int(partSize)*k + []int{0, 1, -1, 0, 12345}[r.Intn(5)]
 		if n < 0 {
 			n = 0
 		}
@@ -1285,10 +1337,14 @@ func runBlockCase(o *out.Out, r *gen.Rand, c int) {
 	o.Count("block.commit." + commitKind)
 	// transactions
 	ntx := r.Pick(2, 3, 3, 3)
+	shape := r.Pick(13, 2, 1) // 0 ordinary, 1 many transactions (DeriveSha's index ranges), 2 block of k*65536 (+-1) bytes
+	if shape == 1 {
+		ntx = []int{126, 127, 128, 129, 130, 255, 256, 257}[r.Intn(8)]
+	}
 	txs := make([]*types.Transaction, ntx)
 	for i := range txs {
 		var data []byte
-		if r.Bool() {
+		if r.Bool() && shape != 1 {
 			data = r.Bytes(r.Intn(70))
 		}
 		if r.Chance(1, 5) {
@@ -1297,7 +1353,11 @@ func runBlockCase(o *out.Out, r *gen.Rand, c int) {
 			txs[i] = types.NewTransaction(uint64(r.Intn(1000)), common.BytesToAddress(r.Bytes(20)), big.NewInt(int64(r.Intn(1000000))), uint64(21000+r.Intn(100000)), big.NewInt(int64(1+r.Intn(100))), data)
 		}
 	}
-	o.Count(fmt.Sprintf("block.txs.%d", ntx))
+	if shape == 1 {
+		o.Count("block.txs.many")
+	} else {
+		o.Count(fmt.Sprintf("block.txs.%d", ntx))
+	}
 	// evidence
 	nev := r.Pick(5, 3, 2)
 	var evs []types.Evidence
@@ -1340,6 +1400,39 @@ func runBlockCase(o *out.Out, r *gen.Rand, c int) {
 		}
 	}
 	blk := types.NewBlock(hdr, txs, lastCommit, evs, hasher())
+	bigTarget := 0
+	if shape == 2 {
+		// pad with one data-carrying transaction so that the marshalled block is exactly k*65536 (+-1) bytes:
+		// every part but possibly the last has exactly BlockPartSizeBytes bytes
+		bigTarget = types.BlockPartSizeBytes*(1+r.Intn(2)) + []int{0, 0, 1, -1}[r.Intn(4)]
+		padLen := bigTarget - len(canon(blk)) - 120
+		for it := 0; it < 8 && padLen > 0; it++ {
+			pad := types.NewTransaction(4242, common.BytesToAddress([]byte{9}), big.NewInt(1), 21000, big.NewInt(1), make([]byte, padLen))
+			blk = types.NewBlock(hdr, append(append([]*types.Transaction{}, txs...), pad), lastCommit, evs, hasher())
+			d := bigTarget - len(canon(blk))
+			if d == 0 {
+				break
+			}
+			padLen += d
+		}
+		o.Count(fmt.Sprintf("block.big.off%d", len(canon(blk))-bigTarget))
+	}
+	// independent reference for the transaction root: go-ethereum's DeriveSha over a plain trie on the
+	// same encodings (the header commits to EVERY transaction)
+	if n := len(blk.Transactions()); n > 0 {
+		enc := make(rlpList, n)
+		for i, tx := range blk.Transactions() {
+			var buf bytes.Buffer
+			types.Transactions(blk.Transactions()).EncodeIndex(i, &buf)
+			enc[i] = append([]byte{}, buf.Bytes()...)
+			_ = tx
+		}
+		want := gethtypes.DeriveSha(enc)
+		if got := blk.Header().TxHash; !bytes.Equal(want.Bytes(), got.Bytes()) {
+			o.Fail(0, "txroot-differs-from-reference", fmt.Sprintf("%d transactions: Header.TxHash %x, reference trie root over the same encodings %x", n, got.Bytes(), want.Bytes()))
+		}
+		o.Count("txroot.reference-checked")
+	}
 
 	// ---- header bytes and hash, commit hash, evidence hash
 	h := blk.Header()
@@ -1520,6 +1613,12 @@ func runBlockCase(o *out.Out, r *gen.Rand, c int) {
 
 	// ---- the marshalled block through a part set (what consensus and the block store do)
 	partSize := uint32([]int{16, 64, 200, 1000, types.BlockPartSizeBytes}[r.Pick(2, 4, 3, 2, 1)])
+	if shape == 1 && partSize < 1000 {
+		partSize = 1000
+	}
+	if shape == 2 {
+		partSize = types.BlockPartSizeBytes
+	}
 	var full *types.PartSet
 	if catch(func() { full = blk.MakePartSet(partSize) }) {
 		o.Fail(step, "makepartset-panic", "")
@@ -1577,42 +1676,38 @@ func runBlockCase(o *out.Out, r *gen.Rand, c int) {
 	if *out.Tier == "thorough" {
 		budget = len(ms)
 	}
-	for _, mi := range order {
-		if budget == 0 {
-			break
-		}
-		m := ms[mi]
-		pb := cloneProtoBlock(pb0)
-		if !m.f(pb, r) {
-			continue
-		}
-		budget--
+	tryMutant := func(name string, pb *kproto.Block) {
 		step++
 		mb, err := types.BlockFromProtoUnsafe(pb)
 		if err != nil {
-			o.Count("mutation." + m.name + ".decode-error")
-			continue // the wire form is rejected: fails validation
+			o.Count("mutation." + name + ".decode-error")
+			return // the wire form is rejected: fails validation
 		}
 		var mc []byte
 		if catch(func() { mc = canon(mb) }) {
-			o.Count("mutation." + m.name + ".unencodable")
-			continue
+			o.Count("mutation." + name + ".unencodable")
+			return
 		}
 		if bytes.Equal(mc, baseCanon) && sameBlock(mb, blk) {
-			o.Count("mutation." + m.name + ".noop")
-			continue
+			o.Count("mutation." + name + ".noop")
+			return
 		}
 		mh, mvb, mpan := opBlock(o, mb)
 		if mpan {
-			o.Fail(step, "mutated-block-panic", m.name)
-			continue
+			o.Fail(step, "mutated-block-panic", name)
+			return
 		}
 		mstate := stateOK(mb)
 		mfresh := validate(cstate.NewBlockExecutor(nil, log.New(), okEvidencePool{}, nil), mb)
 		if (mstate != nil && strings.HasPrefix(mstate.Error(), "PANIC")) || (mfresh != nil && strings.HasPrefix(mfresh.Error(), "PANIC")) {
-			o.Fail(step, "validateblock-panic:"+m.name, fmt.Sprintf("BlockExecutor.ValidateBlock panicked on the block mutated by %s", m.name))
+			o.Fail(step, "validateblock-panic:"+name, fmt.Sprintf("BlockExecutor.ValidateBlock panicked on the block mutated by %s", name))
 		}
 		outcome := "hash-changed"
+		if mh == baseHash && mvb != nil && mstate == nil && mfresh != nil {
+			// (informational) the node's executor answers from its cache before Block.ValidateBasic is run;
+			// harmless as long as every caller decodes with BlockFromProto, which validates first
+			o.Count("mutation.cache-valid-but-validatebasic-invalid")
+		}
 		if mh == baseHash {
 			outcome = "same-hash:" + vbClass(mvb)
 			if mvb == nil {
@@ -1626,22 +1721,67 @@ func runBlockCase(o *out.Out, r *gen.Rand, c int) {
 			}
 		}
 		if outcome == "CACHED-VALID" && baseValid && baseState == nil {
-			o.Fail(step, "validity-cache-ignores-body", fmt.Sprintf("mutation %s of a valid block (height %d) keeps Block.Hash; a fresh BlockExecutor rejects it (%v) but the executor that validated the genuine block before answers valid (cache keyed by the header hash)", m.name, height, mfresh))
+			o.Fail(step, "validity-cache-ignores-body", fmt.Sprintf("mutation %s of a valid block (height %d) keeps Block.Hash; a fresh BlockExecutor rejects it (%v) but the executor that validated the genuine block before answers valid (cache keyed by the header hash)", name, height, mfresh))
 		}
-		o.Count("mutation." + m.name + "." + outcome)
-		o.Mark("mut:" + m.name + ":" + outcome + ":" + commitKind)
+		o.Count("mutation." + name + "." + outcome)
+		o.Mark("mut:" + name + ":" + outcome + ":" + commitKind)
 		if outcome == "UNDETECTED" && baseValid && baseState == nil {
-			class := "tamper-undetected:" + m.name
-			if height == 1 && strings.HasPrefix(m.name, "commit.") {
+			class := "tamper-undetected:" + name
+			if height == 1 && strings.HasPrefix(name, "commit.") {
 				// the (signature-less) last commit of the initial block
 				class = "genesis-commit-malleable"
 			}
-			o.Fail(step, class, fmt.Sprintf("mutation %s of a valid block (height %d, %s last commit) keeps Block.Hash %s, passes ValidateBasic and the commit check against the state", m.name, height, commitKind, baseHash.Hex()))
+			o.Fail(step, class, fmt.Sprintf("mutation %s of a valid block (height %d, %s last commit) keeps Block.Hash %s, passes ValidateBasic and the commit check against the state", name, height, commitKind, baseHash.Hex()))
 		} else if outcome == "UNDETECTED" {
 			o.Count("mutation.undetected-on-invalid-base")
 		}
 	}
+	if shape == 2 && budget > 6 {
+		budget = 6 // (each op line of such a block is large)
+	}
+	for _, mi := range order {
+		if budget == 0 {
+			break
+		}
+		m := ms[mi]
+		pb := cloneProtoBlock(pb0)
+		if !m.f(pb, r) {
+			continue
+		}
+		budget--
+		tryMutant(m.name, pb)
+	}
+	// every position of the transaction list is committed to: replace one transaction at the boundaries of
+	// DeriveSha's three index ranges (1..0x7f, 0, 0x80..) and at the ends
+	if n := len(pb0.Data.Txs); n >= 100 {
+		idxs := map[int]bool{0: true, 1: true, 2: true, 125: true, 126: true, 127: true, 128: true, 129: true, 254: true, 255: true, 256: true, n - 2: true, n - 1: true, r.Intn(n): true}
+		if *out.Tier == "thorough" {
+			for i := 0; i < n; i++ {
+				idxs[i] = true
+			}
+		}
+		for i := 0; i < n; i++ {
+			if !idxs[i] {
+				continue
+			}
+			pb := cloneProtoBlock(pb0)
+			tx := types.NewTransaction(uint64(7777+i), common.BytesToAddress([]byte{byte(i), 1}), big.NewInt(3), 21000, big.NewInt(2), nil)
+			bz, _ := rlp.EncodeToBytes(tx)
+			pb.Data.Txs[i] = bz
+			name := fmt.Sprintf("tx.replace@%d", i)
+			if i == n-1 {
+				name = "tx.replace@last"
+			}
+			tryMutant(name, pb)
+		}
+	}
 }
+
+// rlpList is a list of encoded items for go-ethereum's reference DeriveSha
+type rlpList [][]byte
+
+func (l rlpList) Len() int            { return len(l) }
+func (l rlpList) GetRlp(i int) []byte { return l[i] }
 
 type okEvidencePool struct{}
 
